@@ -42,7 +42,7 @@ CHARTS = {
 }
 CHART_LISTS = [[], ["blank"], ["meta"], ["holds"], ["blank", "meta"], ["holds", "blank"]]
 SIM_TEMPLATES = ["none", "empty", "bare", "blank", "edited", "withchart"]
-CHART_TEMPLATES = ["none", "empty", "blank", "extra", "emptytiming", "notes2"]
+CHART_TEMPLATES = ["none", "empty", "blank", "extra", "emptytiming", "notes2"]  # plus "oddkeys" with two simfile templates
 
 
 def source_model(opt_idx, mand, chart_list, rotate=0):
@@ -100,6 +100,12 @@ def chart_template(kind):
         c["STOPS"] = ""
         c["WARPS"] = ""
         c["BPMS"] = ""
+    if kind == "oddkeys":
+        # keys that resemble structural ones (a chart ends at NOTES / NOTES2 and begins at NOTEDATA - nowhere else)
+        for k in X.KEY_VOCABULARY:
+            c[k.upper()] = "v " + k
+        c["NOTES"] = ""
+        return c
     if kind == "notes2":
         # the template spells its (placeholder) note data with the alias key
         c["NOTES2"] = "2222\n2222\n2222\n2222\n"
@@ -251,6 +257,11 @@ def check_case(case):
         for k in case.get("remove", []):
             model["items"] = [(kk, vv) for kk, vv in model["items"] if kk != k]
         return check_conversion(model, case["sim_template"], case["chart_template"])
+    if case["kind"] == "vocab":
+        tok = case["token"]
+        model = {"type": "sm", "items": [("TITLE", tok), ("OFFSET", "0.000"), ("BPMS", "0.000=120.000"), ("STOPS", ""), ("ATTACKS", tok), ("GENRE", tok)],
+                 "charts": [{"fields": [tok, tok, tok, tok, tok, "0000\n0000\n0000\n0000"], "extra": None}, {"fields": ["dance-single", "", tok, "1", "", "1000\n0000\n0000\n0000"], "extra": None}]}
+        return check_conversion(model, case["sim_template"], case["chart_template"])
     if case["kind"] == "corpus":
         return check_corpus(case["sim_template"], case["chart_template"])
     raise core.MachineryError("unknown case")
@@ -269,9 +280,9 @@ def check_corpus(st, ct):
 
 def template_pairs(level):
     if level == "full":
-        return [(s, c) for s in SIM_TEMPLATES for c in CHART_TEMPLATES]
+        return [(s, c) for s in SIM_TEMPLATES for c in CHART_TEMPLATES] + [("none", "oddkeys"), ("edited", "oddkeys")]
     return [("none", "none"), ("empty", "empty"), ("blank", "extra"), ("edited", "blank"), ("withchart", "none"), ("empty", "extra"),
-            ("blank", "emptytiming"), ("edited", "emptytiming"), ("bare", "notes2"), ("bare", "none"), ("blank", "notes2")]
+            ("blank", "emptytiming"), ("edited", "emptytiming"), ("bare", "notes2"), ("bare", "none"), ("blank", "notes2"), ("none", "oddkeys")]
 
 
 def explore_shard(acc, shard):
@@ -318,6 +329,26 @@ def explore_shard(acc, shard):
             acc.count("transitions")
             rec([first])
             acc.sample(layer, {"first_optional_property": OPTIONAL[first][0], "max_optional": max_opt})
+    elif kind == "vocab":
+        layer = "vocabulary in the source"
+        case = None
+        for tok in X.VOCABULARY:
+            if tok != tok.strip() or not tok:
+                continue  # SM chart fields are trimmed when an SM file is loaded; built objects hold what they are given
+            model = {"type": "sm", "items": [("TITLE", tok), ("OFFSET", "0.000"), ("BPMS", "0.000=120.000"), ("STOPS", ""), ("ATTACKS", tok), ("GENRE", tok)],
+                     "charts": [{"fields": [tok, tok, tok, tok, tok, "0000\n0000\n0000\n0000"], "extra": None}, {"fields": ["dance-single", "", tok, "1", "", "1000\n0000\n0000\n0000"], "extra": None}]}
+            for st, ct in (("none", "none"), ("blank", "blank")):
+                case = {"kind": "vocab", "token": tok, "sim_template": st, "chart_template": ct}
+                core.guard_cheap(acc, case)
+                fails = check_conversion(model, st, ct)
+                acc.count("evaluations")
+                acc.count("states")
+                acc.count("transitions")
+                acc.count("nontrivial")
+                acc.outcome("vocabulary value in the source")
+                for f in fails:
+                    acc.violation(f["clause"], case, f["expected"], f["observed"], signature=(f["clause"], "vocab"))
+        acc.sample(layer, case)
     elif kind == "negative":
         layer = "refusal of negative timing"
         for key, val in (("BPMS", "0.000=120.000,\n4.000=-60.000"), ("STOPS", "2.000=-0.500"), ("BPMS", "0.000=-1"), ("STOPS", "1.000=0.5,\n2.000=-0.001")):
@@ -377,6 +408,7 @@ def explore(run):
     for i in range(len(OPTIONAL)):
         shards.append(("tree", i, max_opt, run.thorough()))
     shards.append(("negative",))
+    shards.append(("vocab",))
     shards.append(("corpus",))
     k = run.seed % len(shards)
     shards = shards[k:] + shards[:k]
@@ -385,13 +417,14 @@ def explore(run):
     run.rule = (
         f"construction tree over subsets of <= {max_opt} of {len(OPTIONAL)} optional source properties (incl. ANIMATIONS alias, SSC-only keys already present, unknown and key-only keys) on top of OFFSET/BPMS/STOPS in 2 spellings each, "
         f"x chart lists {CHART_LISTS} x simfile templates {SIM_TEMPLATES} x chart templates {CHART_TEMPLATES} (full template product for small subsets, 11 pairs otherwise); "
-        "negative BPM/stop sources x templates; the corpus SM file x all 36 template pairs. Non-trivial = source with charts and a caller template."
+        "negative BPM/stop sources x templates; the corpus SM file x all 38 template pairs. Non-trivial = source with charts and a caller template."
     )
     run.assumptions = [
         "mc/models/convert.py states the expected result; the blank templates' content is read from the library",
         "key order of the result is not claimed; chart templates carry no timing values (one carries empty timing keys)",
         "a FREEZES source is a known finding probed separately",
     ]
+    core.require(acc.outcomes["vocabulary value in the source"] > 0, "no vocabulary")
     core.require(acc.outcomes["empty caller template"] > 0, "no empty template")
     core.require(acc.outcomes["template that already has a chart"] > 0, "no template with chart")
     core.require(acc.outcomes["negative timing source"] > 0, "no negative source")
